@@ -82,6 +82,8 @@ int merge_arg_lists (int num_arg, array_t * arr, int start) {
 
   if (num_arr_arg)
     {
+      /* as many values as the array has elements are put on the value stack */
+      STACK_CHECK (num_arr_arg);
       sptr = (sp += num_arr_arg);
       if (num_arg)
         {
